@@ -166,7 +166,58 @@ def sib_obligations(prog):
         obs.append(Obligation("R-SIB", "R-SIB:%s" % gname.replace(" ", "_"), loc, sites[0][1],
                               "all sites of the %s must agree" % gname, ok,
                               "; ".join("%s -> %s" % (v[1], v[0]) for v in vals), props=props))
-    return obs, {"groups": len(GROUPS)}
+    dm = divmod_obligations(prog)
+    return obs + dm, {"groups": len(GROUPS), "divmod_pairs": len(dm)}
+
+
+def divmod_scan(prog):
+    """{(function, variable): (quotient constants, remainder constants)} where the function splits one variable with a constant
+    both ways: v / C or v >> s, and v % D or v & (D - 1)."""
+    out = {}
+    for f in prog.functions.values():
+        if not f.blocks or not f.file.startswith("src/") or f.file.endswith("tests_impl.h") or \
+                f.file.startswith(("src/bench", "src/tests", "src/testrand", "src/unit_test", "src/ctime", "src/precompute")):
+            continue
+        q, r = {}, {}
+        for el in f.elems():
+            if not el.top:
+                continue
+            for x in walk(el.e):
+                if kind(x) == "bin" and x[1] in ("/", ">>", "%", "&") and int_val(x[3]) is not None:
+                    k = Giv.key(x[2])
+                    c = int_val(x[3])
+                    if k is None or c <= 0:
+                        continue
+                    if x[1] == "/":
+                        q.setdefault(k, set()).add(c)
+                    elif x[1] == ">>" and c < 64:
+                        q.setdefault(k, set()).add(1 << c)
+                    elif x[1] == "%":
+                        r.setdefault(k, set()).add(c)
+                    elif x[1] == "&" and (c & (c + 1)) == 0:
+                        r.setdefault(k, set()).add(c + 1)
+        for k in set(q) & set(r):
+            out[(f.name, k)] = (sorted(q[k]), sorted(r[k]), f)
+    return out
+
+
+def divmod_obligations(prog):
+    """A quantity that is split into chunk index and offset within the chunk uses one chunk size for both (`len / 32` with
+    `len % 32`, `i >> 3` with `i & 7`): frozen for the pairs that agree on the reviewed tree (tables/divmod.json)."""
+    from core import load_table, props_of_function
+    tab = load_table("divmod.json")["pairs"]
+    cur = divmod_scan(prog)
+    obs = []
+    for ent in tab:
+        k = (ent["function"], ent["variable"])
+        if k not in cur:
+            continue       # one of the two forms is gone (rewritten): nothing to compare
+        qs, rs, f = cur[k]
+        ok = set(qs) == set(rs)
+        obs.append(Obligation("R-SIB", "R-SIB:divmod:%s:%s" % k, f.loc, f.name,
+                              "%s splits %s into chunk index and offset: the divisor / shift and the modulus / mask must describe the same chunk size" % k,
+                              ok, "quotient by %s, remainder by %s" % (qs, rs), props=props_of_function(f) | {"C07"}))
+    return obs
 
 
 # ------------------------------------------------------------------ R-BITS
@@ -316,7 +367,14 @@ def bits_obligations(prog):
     return obs, {"masks": len(masks)}
 
 
-if __name__ == "__main__":
+if __name__ == "__main__" and len(__import__("sys").argv) > 1 and __import__("sys").argv[1] == "regen-divmod":
+    import json
+    cur = divmod_scan(program("K0"))
+    pairs = [{"function": k[0], "variable": k[1], "chunk": v[0]} for k, v in sorted(cur.items()) if set(v[0]) == set(v[1])]
+    json.dump({"_comment": "R-SIB divmod: (function, variable) split by one constant both ways on the reviewed tree (python3 rules/r_sib.py regen-divmod).",
+               "pairs": pairs}, open(os.path.join(VERIF, "tables", "divmod.json"), "w"), indent=0)
+    print("frozen", len(pairs), "pairs")
+elif __name__ == "__main__":
     prog = program("K0")
     for fn_ in (sib_obligations, bits_obligations):
         obs, st = fn_(prog)
